@@ -80,8 +80,79 @@ def primitive_sites(ix, modules_prefix=("mypyc.primitives", "mypyc.irbuild", "my
                 c = kw.get("c_function_name")
                 if isinstance(c, ast.Constant) and isinstance(c.value, str):
                     sites.append((m, n, kw, c.value))
+    # bindings made through a helper (`int_binary_op("+", "CPyTagged_Add")`) or a literal loop
+    # (`for op, funcname in [("+", "PyNumber_Add"), ...]: binary_op(..., c_function_name=funcname)`)
+    import copy
+
+    class Subst(ast.NodeTransformer):
+        def __init__(self, env):
+            self.env = env
+
+        def visit_Name(self, n):
+            return copy.deepcopy(self.env[n.id]) if n.id in self.env and isinstance(n.ctx, ast.Load) else n
+
+    def inner_binding(body_nodes):
+        for st in body_nodes:
+            for c in ast.walk(st):
+                if isinstance(c, ast.Call):
+                    kw = {k.arg: k.value for k in c.keywords if k.arg}
+                    v = kw.get("c_function_name")
+                    if isinstance(v, ast.Name):
+                        return c, v.id
+        return None
+
+    n_indirect = 0
+    for mname, m in sorted(ix.modules.items()):
+        if not mname.startswith("mypyc.primitives") or mname == "mypyc.primitives.registry":
+            continue
+        helpers = {}
+        for st in m.tree.body:
+            if isinstance(st, ast.FunctionDef):
+                ib = inner_binding(st.body)
+                if ib and ib[1] in [a.arg for a in st.args.args]:
+                    helpers[st.name] = (st, ib[0])
+        for st in m.tree.body:
+            if isinstance(st, ast.For) and isinstance(st.iter, (ast.List, ast.Tuple)):
+                ib = inner_binding(st.body)
+                if not ib:
+                    continue
+                names = [t.id for t in (st.target.elts if isinstance(st.target, ast.Tuple) else [st.target]) if isinstance(t, ast.Name)]
+                for item in st.iter.elts:
+                    vals = item.elts if isinstance(item, ast.Tuple) else [item]
+                    if len(vals) != len(names):
+                        continue
+                    call = Subst(dict(zip(names, vals))).visit(copy.deepcopy(ib[0]))
+                    ast.copy_location(call, item)
+                    call.lineno = item.lineno
+                    kw = {k.arg: k.value for k in call.keywords if k.arg}
+                    c = kw.get("c_function_name")
+                    if isinstance(c, ast.Constant) and isinstance(c.value, str):
+                        sites.append((m, call, kw, c.value))
+                        n_indirect += 1
+        for c0 in ast.walk(m.tree):
+            if isinstance(c0, ast.Call) and isinstance(c0.func, ast.Name) and c0.func.id in helpers:
+                hdef, inner = helpers[c0.func.id]
+                params = [a.arg for a in hdef.args.args]
+                env = {}
+                defaults = hdef.args.defaults
+                for pn, dv in zip(params[len(params) - len(defaults):], defaults):
+                    env[pn] = dv
+                for pn, av in zip(params, c0.args):
+                    env[pn] = av
+                for k in c0.keywords:
+                    if k.arg:
+                        env[k.arg] = k.value
+                call = Subst(env).visit(copy.deepcopy(inner))
+                call.lineno = c0.lineno
+                kw = {k.arg: k.value for k in call.keywords if k.arg}
+                c = kw.get("c_function_name")
+                if isinstance(c, ast.Constant) and isinstance(c.value, str):
+                    sites.append((m, call, kw, c.value))
+                    n_indirect += 1
     if len(sites) < 300:
         raise AnalysisError(f"only {len(sites)} primitive bindings with a literal c_function_name found")
+    if n_indirect < 40:
+        raise AnalysisError(f"only {n_indirect} helper/loop-made primitive bindings resolved")
     return sites
 
 
@@ -103,6 +174,10 @@ def run(chk: Check, only_numeric: bool = False) -> None:
         where = f"{m.relpath}:{n.lineno}"
         decl = funcs.get(cname)
         at = kw.get("arg_types")
+        if at is None and kw.get("arg_type") is not None:
+            at = ast.List(elts=[kw["arg_type"]], ctx=ast.Load())
+        if isinstance(at, ast.BinOp) and isinstance(at.op, ast.Mult) and isinstance(at.left, ast.List) and isinstance(at.right, ast.Constant) and isinstance(at.right.value, int):
+            at = ast.List(elts=list(at.left.elts) * at.right.value, ctx=ast.Load())
         n_args = len(at.elts) if isinstance(at, ast.List) else None
         extra = kw.get("extra_int_constants")
         n_extra = len(extra.elts) if isinstance(extra, ast.List) else 0
@@ -162,6 +237,8 @@ def run(chk: Check, only_numeric: bool = False) -> None:
         cret = cnorm(decl["ret"])
         if ekn == "ERR_NEVER" and "NULL" in rets and not rnull and cret.endswith("*"):
             r2.violation(key2, where, f"declared ERR_NEVER but the C body of {cname} contains `return NULL`: a failure leaves an exception pending and the NULL is used as a value")
+        elif ekn == "ERR_NEVER" and not rnull and cret.endswith("*") and fallible_calls(cname, funcs):
+            r2.violation(key2, where, f"declared ERR_NEVER but {cname} returns the result of {sorted(fallible_calls(cname, funcs))}, which is NULL with an exception set on failure: the NULL is then used as a value")
         elif ekn == "ERR_FALSE" and cret not in TRUTH:
             r2.violation(key2, where, f"declared ERR_FALSE but {cname} returns `{decl['ret']}`, not a truth value")
         elif ekn == "ERR_NEG_INT" and cret not in ("int", "int32_t", "Py_ssize_t", "int64_t", "long", "ssize_t"):
@@ -173,6 +250,33 @@ def run(chk: Check, only_numeric: bool = False) -> None:
     chk.extra["macro_bound"] = n_macro
     if not only_numeric:
         pass_order(chk, ix)
+
+
+def fallible_calls(cname: str, funcs: dict, _seen=None) -> set[str]:
+    """Callees whose result `cname` returns directly and that can be NULL: CPython API functions
+    returning a pointer (any `Py*`/`_Py*` object-returning call can fail), indirect calls, and
+    lib-rt functions that themselves return NULL or such a result."""
+    _seen = set() if _seen is None else _seen
+    if cname in _seen:
+        return set()
+    _seen.add(cname)
+    out = set()
+    d = funcs.get(cname)
+    if not d:
+        return out
+    for r in d["returns"]:
+        if not r.startswith("call:"):
+            continue
+        callee = r[5:]
+        if callee in ("_Py_NewRef", "Py_NewRef", "_Py_XNewRef", "Py_XNewRef"):
+            continue  # a new reference to an existing object: cannot fail
+        cd = funcs.get(callee)
+        if cd is not None and cd["has_body"]:
+            if "NULL" in cd["returns"] or fallible_calls(callee, funcs, _seen):
+                out.add(callee)
+        elif callee == "?" or callee.startswith(("Py", "_Py")):
+            out.add(callee)
+    return out
 
 
 def call_label(kw) -> str:
